@@ -153,6 +153,9 @@ func allProps() []PropSpec {
 				{Func: "ZZ_C11_H2", Pkg: "pkg/protocol/http1/resp", Covers: []string{"reached-assert", "too-large", "byte-at-a-time"}},
 				{Func: "ZZ_C11_BIG", Pkg: "pkg/protocol/http1", Covers: []string{"reached-assert"}, Unwind: 20000, MaxSteps: 8000000, Note: "8 KiB+ streamed request body across copy-buffer boundaries"},
 				{Func: "ZZ_C11_MP", Pkg: "pkg/protocol", Quick: map[string]int{"F": 4, "V": 2}, Thorough: map[string]int{"F": 6, "V": 3}, Covers: []string{"reached-assert", "short-first-read"}, Unwind: 40000, MaxSteps: 8000000, Note: "multipart body assembly (WriteMultipartFormFile + AddMultipartFormField on the real mime/multipart.Writer run from SSA): symbolic file/field bytes, file reader returning short reads; random boundary and net/http.DetectContentType are stubs"},
+				{Func: "ZZ_C11_H3", Pkg: "pkg/protocol/http1", Covers: []string{"reached-assert", "connection-reused"}, Unwind: 5000,
+					GoPolicy: map[string]string{"(*github.com/cloudwego/hertz/pkg/protocol/http1.HostClient).connsCleaner": "skip"},
+					Note: "response header names and values through HostClient.Do with header-name normalisation on and off, two exchanges over the reused connection"},
 			},
 			Assumptions: []string{"multipart bodies: only the assembly of parts (ZZ_C11_MP; random boundary and content sniffing stubbed) - the read-back through mime/multipart.Reader in handleMultipart and the server's multipart parser are outside; URL-encoded form bodies, proxy form, gzip helpers and HostClient.Do plumbing are outside", "the independent parser is the real hertz server (Serve over standard.Conn) plus the strict line reader of C05; net/http is not used as second decoder", "response templates: fixed, chunked+trailer, 204, 304, 100-continue+final, read-until-close with 3 symbolic body bytes and one symbolic header value byte"},
 		},
@@ -208,9 +211,9 @@ func allProps() []PropSpec {
 				{Func: "ZZ_C10_H2", Pkg: "pkg/protocol/http1", Covers: []string{"reached-assert", "waited-and-timed-out"}, Unwind: 5000,
 					GoPolicy: map[string]string{"(*github.com/cloudwego/hertz/pkg/protocol/http1.HostClient).connsCleaner": "skip"},
 					Note: "wait-for-free-connection path, sequentially: the waiter's timer fires when nothing else can happen; no waiter left behind; released connection reused"},
-				{Func: "ZZ_C10_H3", Pkg: "pkg/protocol/http1", Quick: map[string]int{"M": 3}, Thorough: map[string]int{"M": 4}, Covers: []string{"reached-assert", "connection-reused", "no-free-connection", "stream-left-open"}, Unwind: 5000, MaxSteps: 4000000,
+				{Func: "ZZ_C10_H3", Pkg: "pkg/protocol/http1", Quick: map[string]int{"M": 3, "SHAPES": 6}, Thorough: map[string]int{"M": 4, "SHAPES": 6}, Covers: []string{"reached-assert", "connection-reused", "no-free-connection", "stream-left-open"}, Unwind: 40000, MaxSteps: 8000000,
 					GoPolicy: map[string]string{"(*github.com/cloudwego/hertz/pkg/protocol/http1.HostClient).connsCleaner": "skip"},
-					Note: "response streaming: M calls x five response framings x body read or not x stream closed once / twice / left open (later calls then wait and time out); pool invariant after every call"},
+					Note: "response streaming: M calls x six response framings (one a 9000-byte body the peer cuts short at 8500) x body read or not x stream closed once / twice / left open (later calls then wait and time out); pool invariant after every call"},
 				{Func: "ZZ_C10_H4", Pkg: "pkg/protocol/http1", Covers: []string{"reached-assert", "first-call-timed-out", "first-call-ok"}, Unwind: 5000,
 					GoPolicy: map[string]string{"(*github.com/cloudwego/hertz/pkg/protocol/http1.HostClient).connsCleaner": "skip"},
 					Note: "request timeout budget used up before the write or between write and read (slow peer writes: zz.SlowFor advances the modelled clock and sleeps natively): the unfinished connection is not reused"},
